@@ -177,6 +177,17 @@ def run_case(case):
         name, f, args, kw, G = call.name, call.f, call.args, call.kw, call.G
         deterministic = True
         mode = 'full' if call.full else 'plain'
+        if case.get('seed', 0) % 4 == 1:
+            # initial conditions of a large network underflow into subnormal numbers (binomial tails): such entries are values like any other
+            planted = 0
+            for arr in list(args) + list(kw.values()):
+                if isinstance(arr, np.ndarray) and arr.dtype == np.float64 and arr.size:
+                    idx = np.flatnonzero(np.asarray(arr).ravel() == 0)[:3]
+                    if len(idx):
+                        arr.flat[idx] = 5e-318
+                        planted += len(idx)
+            if planted:
+                bump(res, 'array_arguments_with_subnormal_entries')
         r0only = bool(case.get('r0only') and kw.get('initial_recovereds') is not None and len(kw['initial_recovereds']) and 'initial_infecteds' in kw)
         if r0only:
             del kw['initial_infecteds']
